@@ -399,6 +399,16 @@ func (p *parser) parseLabelPredicate() (pred LabelPredicate, _ error) {
 	if err != nil {
 		return nil, err
 	}
+	if binOp == OpAnd {
+		// "and" binds tighter than "or": a and b or c is (a and b) or c.
+		if r, ok := right.(*LabelPredicateBinOp); ok && r.Op == OpOr {
+			return &LabelPredicateBinOp{
+				Left:  &LabelPredicateBinOp{Left: pred, Op: OpAnd, Right: r.Left},
+				Op:    OpOr,
+				Right: r.Right,
+			}, nil
+		}
+	}
 	return &LabelPredicateBinOp{Left: pred, Op: binOp, Right: right}, nil
 }
 
